@@ -1,9 +1,9 @@
 #!/bin/sh
-# usage: tools/eval_mutant.sh <patch.diff> C01 C02 ...   — apply to /repo, run the quick checks, undo
+# usage: tools/eval_mutant.sh <patch.diff> C01 C02 ...   — apply to /repo, run the quick checks, always undo
 patch=$1; shift
+if [ -n "$(git -C /repo status --porcelain)" ]; then echo "/repo working tree is not clean"; exit 3; fi
+trap 'git -C /repo checkout -- . ' EXIT INT TERM
 git -C /repo apply "$patch" || { echo "patch does not apply"; exit 3; }
 for p in "$@"; do
-  echo "=== $p"; VERIF_ALLOW_NO_THM=1 /verif/check $p --tier ${TIER:-quick} | grep -v "^KNOWN" ; 
+  echo "=== $p"; timeout 600 /verif/check $p --tier ${TIER:-quick} | grep -v "^KNOWN" ;
 done
-git -C /repo checkout -- .
-git -C /repo status --short | head -3
